@@ -333,10 +333,8 @@ fn cold_run(job: &Value) -> Option<String> {
         return None;
     }
     let exe = std::env::current_exe().ok()?;
-    let dir = std::env::temp_dir().join(format!("fqv-cold-{}", std::process::id()));
-    let _ = std::fs::create_dir_all(&dir);
     let k = COLD_SEQ.fetch_add(1, std::sync::atomic::Ordering::SeqCst);
-    let path = dir.join(format!("{}.json", k));
+    let path = std::env::temp_dir().join(format!("fqv-cold-{}-{}.json", std::process::id(), k));
     std::fs::write(&path, job.to_string()).ok()?;
     let out = std::process::Command::new(exe).arg("__cold").arg(&path).output().ok();
     let _ = std::fs::remove_file(&path);
@@ -367,10 +365,8 @@ fn cold_digest(bc: &BuildCase) -> Option<String> {
         return None;
     }
     let exe = std::env::current_exe().ok()?;
-    let dir = std::env::temp_dir().join(format!("fqv-cold-{}", std::process::id()));
-    let _ = std::fs::create_dir_all(&dir);
     let k = COLD_SEQ.fetch_add(1, std::sync::atomic::Ordering::SeqCst);
-    let path = dir.join(format!("{}.json", k));
+    let path = std::env::temp_dir().join(format!("fqv-cold-{}-{}.json", std::process::id(), k));
     std::fs::write(&path, bc.to_json().to_string()).ok()?;
     let out = std::process::Command::new(exe).arg("__cold").arg(&path).output().ok();
     let _ = std::fs::remove_file(&path);
@@ -379,9 +375,7 @@ fn cold_digest(bc: &BuildCase) -> Option<String> {
     text.lines().find_map(|l| l.strip_prefix("COLD ").map(|x| x.to_string()))
 }
 
-pub fn cleanup_cold_dir() {
-    let _ = std::fs::remove_dir_all(std::env::temp_dir().join(format!("fqv-cold-{}", std::process::id())));
-}
+pub fn cleanup_cold_dir() {}
 
 /// Does the result agree with the specification-level model (reference encoder for the values; reference capacity for
 /// the result kind; reference penalty for an automatic mask)? A disagreement is not by itself a purity violation (it
